@@ -95,7 +95,7 @@ def _alarm(signum, frame):
     _Hang.frame_desc = desc
     from . import loop as _loop
     _loop._HANG[0] = True
-    raise HangDetected("wall-clock watchdog")
+    raise HangDetected("CPU-time watchdog")
 
 
 def execute(mod, scn: dict, run_seed: int, tape=None, log: bool = False) -> dict:
@@ -104,8 +104,10 @@ def execute(mod, scn: dict, run_seed: int, tape=None, log: bool = False) -> dict
     ch = Choices(seed=run_seed ^ 0x9E3779B97F4A7C15, tape=tape)
     from . import loop as _loop
     _loop._HANG[0] = False
-    old = signal.signal(signal.SIGALRM, _alarm)
-    signal.setitimer(signal.ITIMER_REAL, RUN_WALL_LIMIT)
+    # the watchdog counts this process's CPU time, not wall time: a busy machine must not turn a slow run into a
+    # reported hang (a run never sleeps; a worker that stops altogether is caught by the parent's wait timeout)
+    old = signal.signal(signal.SIGPROF, _alarm)
+    signal.setitimer(signal.ITIMER_PROF, RUN_WALL_LIMIT)
     try:
         res = mod.run(scn, ch, log=log) if log else mod.run(scn, ch)
         res.setdefault("violations", [])
@@ -116,7 +118,7 @@ def execute(mod, scn: dict, run_seed: int, tape=None, log: bool = False) -> dict
         where = where.rsplit(":", 1)[0]
         res = {
             "violations": [{"invariant": "hang", "key": f"hang@{where}",
-                            "message": "run exceeded the wall-clock watchdog: " + " <- ".join(top)}],
+                            "message": f"run exceeded the watchdog ({RUN_WALL_LIMIT:.0f} s of CPU time): " + " <- ".join(top)}],
             "outcome": "VIOLATION", "nontrivial": True, "sig": "hang", "digest": "hang",
             "steps": 0, "vtime": 0.0, "faults": {}, "probes": {},
         }
@@ -125,8 +127,8 @@ def execute(mod, scn: dict, run_seed: int, tape=None, log: bool = False) -> dict
                "nontrivial": False, "sig": "", "digest": "", "steps": 0, "vtime": 0.0,
                "faults": {}, "probes": {}}
     finally:
-        signal.setitimer(signal.ITIMER_REAL, 0)
-        signal.signal(signal.SIGALRM, old)
+        signal.setitimer(signal.ITIMER_PROF, 0)
+        signal.signal(signal.SIGPROF, old)
     res["tape"] = ch.used_tape()
     res["choice_counts"] = dict(ch.counts)
     return res
